@@ -538,6 +538,44 @@ func checkC16(w *World) {
 					}
 				}
 				w.check(P, "R16.3", "float rendering", ta.Pos(), okFmt, fmt.Sprintf("strconv.FormatFloat(x,'g',-1,64): %v", okFmt))
+				// universal form: every value returned under the float64 arm is that FormatFloat of the decoded number
+				// itself, and the number never passes through an integer (a whole-number fast path prints -0 as 0)
+				var val ssa.Value
+				for _, rr := range referrers(ta) {
+					if ex, ok := rr.(*ssa.Extract); ok && ex.Index == 0 {
+						val = ex
+					}
+				}
+				allRet, nRet := true, 0
+				toInt := false
+				for _, b := range render.Blocks {
+					under := false
+					for _, a := range guardAtoms(b) {
+						if ex, ok := a.V.(*ssa.Extract); ok && ex.Tuple == ssa.Value(ta) && ex.Index == 1 && a.Pol {
+							under = true
+						}
+					}
+					if !under {
+						continue
+					}
+					for _, in2 := range b.Instrs {
+						switch x := in2.(type) {
+						case *ssa.Return:
+							nRet++
+							c, isCall := x.Results[0].(*ssa.Call)
+							if !isCall || staticCallee(c) == nil || funcFullName(staticCallee(c)) != "strconv.FormatFloat" || c.Call.Args[0] != val {
+								allRet = false
+							}
+						case *ssa.Convert:
+							if fb, ok := x.X.Type().Underlying().(*types.Basic); ok && fb.Info()&types.IsFloat != 0 {
+								if tb, ok := x.Type().Underlying().(*types.Basic); ok && tb.Info()&types.IsInteger != 0 {
+									toInt = true
+								}
+							}
+						}
+					}
+				}
+				w.check(P, "R16.3", "float rendering on every path", ta.Pos(), nRet > 0 && allRet && !toInt, fmt.Sprintf("returns under the float64 arm: %d, each is FormatFloat of the decoded number itself: %v; the number is converted to an integer on the way: %v", nRet, allRet, toInt))
 			}
 		})
 		var missing []string
@@ -609,6 +647,7 @@ func checkC16(w *World) {
 	w.checkJsonScheduling(P, pull)
 	// the store keeps every event of the stream: an empty string is still a text node
 	w.include(P, "C10", "R10.8")
+	w.include(P, "C17", "R17.5") // the adapters of package parser share no growing package-level state
 }
 
 func checkC17(w *World) {
@@ -1270,6 +1309,108 @@ func checkC17(w *World) {
 		})
 	}
 	w.floorSites(P, "R17.4", 7)
+	w.adapterSharedState(P)
+	w.htmlReadsCallersBytes(P)
+}
+
+// adapterSharedState (R17.5): the pull adapters keep their state per parser. A package-level slice may be used as a
+// shared empty value, but nothing may be appended to it or stored through it: two parsers that are pulled in turns
+// (the command with -c N, a server) would otherwise see each other's attributes.
+func (w *World) adapterSharedState(P string) {
+	docRule(P, "R17.5", "E ownership", "no function of package parser appends to, or stores an element into, a slice or map held in a package-level variable (outside package initialisation): the package-level empty lists are only ever assigned, never grown, so the attribute and namespace lists of one parser are never backed by memory another parser appends into.")
+	var bad []string
+	n := 0
+	w.forAllFuncs("parser", func(fn *ssa.Function) {
+		if fn.Name() == "init" || strings.HasPrefix(fn.Name(), "init#") {
+			return
+		}
+		n++
+		fromGlobal := func(v ssa.Value) string {
+			name := ""
+			seen := map[ssa.Value]bool{}
+			var walk func(v ssa.Value, d int)
+			walk = func(v ssa.Value, d int) {
+				if seen[v] || d > 8 || name != "" {
+					return
+				}
+				seen[v] = true
+				switch x := v.(type) {
+				case *ssa.UnOp:
+					if g, ok := x.X.(*ssa.Global); ok && inRepoGlobal(g) {
+						name = g.Name()
+					}
+				case *ssa.Phi:
+					for _, e := range x.Edges {
+						walk(e, d+1)
+					}
+				case *ssa.Slice:
+					walk(x.X, d+1)
+				case *ssa.Call:
+					if b, ok := x.Call.Value.(*ssa.Builtin); ok && b.Name() == "append" {
+						walk(x.Call.Args[0], d+1)
+					}
+				case *ssa.ChangeType:
+					walk(x.X, d+1)
+				}
+			}
+			walk(v, 0)
+			return name
+		}
+		allInstrs(fn, func(in ssa.Instruction) {
+			switch x := in.(type) {
+			case *ssa.Call:
+				if b, ok := x.Call.Value.(*ssa.Builtin); ok && b.Name() == "append" {
+					if g := fromGlobal(x.Call.Args[0]); g != "" {
+						bad = append(bad, fmt.Sprintf("%s: append onto the package-level %s in %s", w.pos(x.Pos()), g, fn.Name()))
+					}
+				}
+			case *ssa.Store:
+				if ia, ok := x.Addr.(*ssa.IndexAddr); ok {
+					if g := fromGlobal(ia.X); g != "" {
+						bad = append(bad, fmt.Sprintf("%s: store into the package-level %s in %s", w.pos(x.Pos()), g, fn.Name()))
+					}
+				}
+			case *ssa.MapUpdate:
+				if g := fromGlobal(x.Map); g != "" {
+					bad = append(bad, fmt.Sprintf("%s: update of the package-level %s in %s", w.pos(x.Pos()), g, fn.Name()))
+				}
+			}
+		})
+	})
+	sort.Strings(bad)
+	w.check(P, "R17.5", "package parser: package-level lists are never grown", 0, len(bad) == 0 && n > 0, fmt.Sprintf("%d functions scanned; writes into package-level slices or maps: %s", n, orElse(strings.Join(bad, "; "), "none")))
+	w.floor(P, "R17.5", 1)
+}
+
+// htmlReadsCallersBytes (R17.6): html.Parse implements the HTML5 encoding sniffing for a byte stream it is given;
+// the tree the property compares with is the one html.Parse builds from the caller's reader. A transcoding layer in
+// front of it (charset.NewReader guesses from the first 1024 bytes) changes the characters of documents whose first
+// non-ASCII byte comes later.
+func (w *World) htmlReadsCallersBytes(P string) {
+	docRule(P, "R17.6", "F", "ReadHtml hands the caller's reader itself to html.Parse: nothing wraps, transcodes or pre-reads the input.")
+	rh := w.member("parser", "ReadHtml")
+	if rh == nil || len(rh.Params) == 0 {
+		w.undecided(P, "R17.6", "parser.ReadHtml", 0, "not found")
+		return
+	}
+	direct, n := true, 0
+	for g := range staticReach(rh, func(x *ssa.Function) bool { return fnPkgKey(x) == "parser" }) {
+		allInstrs(g, func(in ssa.Instruction) {
+			c, ok := in.(*ssa.Call)
+			if !ok || staticCallee(c) == nil {
+				return
+			}
+			fn := funcFullName(staticCallee(c))
+			if fn == "golang.org/x/net/html.Parse" || fn == "golang.org/x/net/html.ParseWithOptions" {
+				n++
+				if g != rh || c.Call.Args[0] != ssa.Value(rh.Params[0]) {
+					direct = false
+				}
+			}
+		})
+	}
+	w.check(P, "R17.6", "html.Parse reads the caller's bytes", rh.Pos(), n > 0 && direct, fmt.Sprintf("calls of html.Parse: %d; each is given ReadHtml's own reader parameter: %v", n, direct))
+	w.floor(P, "R17.6", 1)
 }
 
 func fieldName(fa *ssa.FieldAddr) string {
